@@ -28,10 +28,16 @@ Definition fam4 (n : N) (i : Z) (l : list Z) : list Z :=
    input is given in quarters *)
 Definition fam5 (i : Z) (y : Z) : Z := y / 2 + i * 16777216.
 
+(* family 3: the argument is the nil interface (written [], counted as the list [-1000]), a typed nil slice inside the
+   interface (written [-7777], the empty list) or a list *)
+Definition start3 (l : list Z) : list Z :=
+  match l with [] => [-1000] | [x] => if Z.eqb x (-7777) then [] else l | _ => l end.
+
 Definition required (c : case) : option (list Z) :=
   match fam c with
   | 5%N => match input c with [q] => Some [spec_pipe (arity c) fam5 (q * 4194304)] | _ => None end
-  | 2%N | 3%N => Some (spec_pipe (arity c) fam2 (input c))
+  | 2%N => Some (spec_pipe (arity c) fam2 (input c))
+  | 3%N => Some (spec_pipe (arity c) fam2 (start3 (input c)))
   | 4%N => Some (spec_pipe (arity c) (fam4 (arity c)) (input c))
   | f => match input c with [x] => Some [spec_pipe (arity c) (fam01 f) x] | _ => None end
   end.
